@@ -116,6 +116,9 @@ class Derived:
     def key(self):
         return self.alias
 
+    def ident(self):
+        return self.alias
+
     def render(self, r):
         return "(" + self.query.render(r) + ")" + (" as " if self.use_as else " ") + r.ident(self.alias)
 
@@ -131,6 +134,10 @@ class CteRef:
 
     def key(self):
         return self.alias or self.name
+
+    def ident(self):
+        """printed identity: every reference to a CTE is the CTE's own node, whatever alias it carries"""
+        return self.name
 
     def render(self, r):
         s = r.ident(self.name)
@@ -364,10 +371,11 @@ class Select:
                     t.add("join.derived_table")
             if g.joins and g.first.kind == "derived":
                 t.add("join.derived_table")
-        # KF-24 shape: a derived table that itself contains a join is joined with other relations
-        if len(rels) > 1:
+        # KF-24 shape: the FROM clause has an explicit JOIN and one of its derived tables contains a JOIN at any depth:
+        # the tool collects join clauses recursively, so the inner join's relations leak into this scope
+        if any(g.joins for g in self.groups):
             for rel in rels:
-                if rel.kind == "derived" and isinstance(rel.query, Select) and any(g.joins for g in rel.query.groups):
+                if rel.kind == "derived" and _has_join_inside(rel.query):
                     t.add("join.derived_with_inner_join")
         names = [rel.name for rel in rels if rel.kind == "base"]
         if len(names) != len(set(names)):
@@ -405,7 +413,7 @@ class Select:
             for rel in definers:
                 out |= _rel_col(rel, c.name, env, ds, notes)
             return out
-        cands = [rel.full(ds) if rel.kind == "base" else rel.key() for rel in rels]
+        cands = [rel.full(ds) if rel.kind == "base" else rel.ident() for rel in rels]
         return {O_unres(set(cands), c.name)}
 
     def outputs(self, env=None, ds=None, notes=None):
@@ -422,10 +430,7 @@ class Select:
                         out.append(("*", {O_col(rel.full(ds), "*")}, False))
                     else:
                         for name, orig, lit_only in _rel_outputs(rel, env, ds, notes):
-                            if orig or not lit_only:
-                                out.append((name, set(orig) if orig else {O_subq(rel.key(), name)}, False))
-                            else:
-                                out.append((name, {O_subq(rel.key(), name)}, False))
+                            out.append((name, set(orig) if orig else {O_subq(rel.ident(), name)}, False))
                 continue
             orig = set()
             for c in it.expr.cols():
@@ -435,6 +440,26 @@ class Select:
                     orig |= o2
             out.append((it.out_name(), orig, not it.expr.cols() and not it.expr.subqueries()))
         return out
+
+
+def _has_join_inside(q):
+    if isinstance(q, Select) and any(g.joins for g in q.groups):
+        return True
+    if isinstance(q, SetOp):
+        return any(_has_join_inside(b) for b in q.branches)
+    if isinstance(q, With):
+        return _has_join_inside(q.body) or any(_has_join_inside(c) for _, c in q.ctes)
+    return any(_has_join_inside(s) for s in q.subqueries())
+
+
+def _has_star(q):
+    if isinstance(q, Select):
+        return any(i.is_star for i in q.items)
+    if isinstance(q, SetOp):
+        return any(_has_star(b) for b in q.branches)
+    if isinstance(q, With):
+        return _has_star(q.body)
+    return False
 
 
 def _rel_outputs(rel, env, ds, notes):
@@ -462,9 +487,9 @@ def _rel_col(rel, name, env, ds, notes):
         if n == name:
             if orig:
                 return set(orig)
-            return {O_subq(rel.key(), name)}  # literal-defined sub-query column: sub-query rooted pair (tolerated)
+            return {O_subq(rel.ident(), name)}  # literal-defined sub-query column: sub-query rooted pair (tolerated)
     notes.add("subquery_column_not_defined_by_name")
-    return {O_subq(rel.key(), name)}
+    return {O_subq(rel.ident(), name)}
 
 
 class SetOp:
@@ -831,11 +856,12 @@ class Gen:
         out = []
         for _ in range(n):
             k = r.random()
-            if allow_star and k < 0.08 and all(x.kind == "base" for x in rels):
+            have_star = any(i.is_star for i in out)
+            if allow_star and not have_star and k < 0.08 and all(x.kind == "base" for x in rels):
                 out.append(Item(None, is_star=True))
-            elif allow_star and k < 0.14:
+            elif allow_star and not have_star and k < 0.14:
                 rel = r.choice(rels)
-                if rel.kind == "base" or all(nn and nn != "*" for nn in _rel_names(rel, env_names or {})):
+                if rel.kind == "base" or (rel.kind == "derived" and all(nn and nn != "*" for nn in _rel_names(rel, env_names or {}))):
                     out.append(Item(None, is_star=True, star_q=rel.key()))
                 else:
                     out.append(Item(self.qcol(rels, env_names), self.nm.out()))
@@ -958,7 +984,7 @@ class Gen:
             cols = None
             if k == "insert_cols" or (k == "create_view" and r.random() < 0.3):
                 outs = q.outputs()
-                if any(n == "*" for n, _, _ in outs):
+                if any(n == "*" for n, _, _ in outs) or _has_star(q):
                     k = "insert" if k == "insert_cols" else k
                 else:
                     cols = [self.nm.out() for _ in outs]
@@ -1233,6 +1259,12 @@ def risk(stmt, ds=None):
                     elif rel.kind == "derived":
                         lost |= rel.query.reads(ds)
             add("where.in_subquery_comma_join", lost)
+        # ((select ...) union all (select ...)) as a predicate sub-query: only the first branch is analysed
+        if pr.query is not None and isinstance(pr.query, SetOp) and pr.query.paren:
+            lost = set()
+            for b in pr.query.branches[1:]:
+                lost |= b.reads(ds)
+            add("where.subquery_setop_paren", lost)
         for k in pr.kids:
             walk_pred(k)
 
@@ -1253,6 +1285,8 @@ def risk(stmt, ds=None):
                         add("from.mixed_comma_join", {rel.full(ds)})
                     elif rel.kind == "derived":
                         add("from.mixed_comma_join", rel.query.reads(ds))
+            for rel in q.rels()[1:]:
+                add("from.mixed_comma_join_any", {rel.full(ds)} if rel.kind == "base" else rel.query.reads(ds) if rel.kind == "derived" else set())
         for it in q.items:
             if not it.is_star:
                 for s in it.expr.subqueries():
